@@ -62,6 +62,10 @@ type CostModel struct {
 	// SetupStallMaxUs of fake time (slow initialisation: table ageing, GC pause)
 	SetupStallPct   int `json:"setup_stall_pct,omitempty"`
 	SetupStallMaxUs int `json:"setup_stall_max_us,omitempty"`
+	// TimerFireStallPct: percent of expiring timers that are descheduled for up
+	// to TimerFireStallMaxUs between deciding to end the search and doing it
+	TimerFireStallPct   int `json:"timer_fire_stall_pct,omitempty"`
+	TimerFireStallMaxUs int `json:"timer_fire_stall_max_us,omitempty"`
 }
 
 // Stall is a descheduling of the search thread (fault F3).
@@ -108,6 +112,7 @@ type Sim struct {
 	stallIdx    int
 	StallsHit   int
 	SetupStalls int
+	TimerFireStalls int
 
 	tokenSeq  uint64
 	firstSlot []int64
@@ -481,6 +486,14 @@ func hookEvent(kind int, a interface{}) {
 		}
 		if tok < maxTokens && (int(s.tokenGen[tok]) != s.SearchGen || !s.SearchActive) {
 			s.StaleFires = append(s.StaleFires, Ev{T: s.Now(), Kind: kind, Tok: tok, Gen: s.SearchGen})
+		}
+		if s.Cost.TimerFireStallPct > 0 && s.costRng.Intn(100) < s.Cost.TimerFireStallPct {
+			// fault F3 on the timer goroutine: it has decided to end its search
+			// and is descheduled before it does so
+			s.TimerFireStalls++
+			d := int64(1000 + s.costRng.Intn(s.Cost.TimerFireStallMaxUs*1000+1))
+			t := s.reserve(d)
+			s.sleepUntil(t)
 		}
 	case verifhook.TimerExit:
 		tok, _ := a.(uint64)
